@@ -183,6 +183,11 @@ def kvRun (backend : Str) (ops : List JVal) : List Str :=
     | _ => (b, kv, out ++ [S "bad"])
   (ops.foldl step (R.init, KVSpec.empty, [])).2.2
 
+/-- the code keeps the index in a `u32`: a text whose index does not fit is rejected with an error (after the
+    repair of D17; before, it aborted).  The model's `Rev.parse` is unbounded; the bound lives here, in the
+    line-protocol layer, and indices ≥ 2^32 are outside what the theorems talk about (DESIGN 2.3). -/
+def parseRevU32 (s : Str) : Option Rev := (Rev.parse s).bind (fun r => if r.index < 4294967296 then some r else none)
+
 def cmpName : Ordering → Str | .lt => S "lt" | .eq => S "eq" | .gt => S "gt"
 
 def msgPrefix (s : String) : Str := (s.splitOn ":").head!.trimAscii.toString.toList
@@ -192,7 +197,7 @@ def answer (req : JVal) : Str :=
   | .arr (.str op :: args) =>
     if op = S "rev.parse" then
       match args with
-      | [.str s] => match Rev.parse s with
+      | [.str s] => match parseRevU32 s with
         | some r => S "ok " ++ revFields r
         | none => S "err"
       | _ => S "badreq"
@@ -201,7 +206,7 @@ def answer (req : JVal) : Str :=
     else if op = S "rev.upd" ∨ op = S "rev.del" ∨ op = S "rev.res" then
       match args with
       | .str p :: rest =>
-        match Rev.parse p with
+        match parseRevU32 p with
         | none => S "err"
         | some pr =>
           if op = S "rev.upd" then
@@ -212,7 +217,7 @@ def answer (req : JVal) : Str :=
     else if op = S "rev.cmp" then
       match args with
       | [.str a, .str b] =>
-        match Rev.parse a, Rev.parse b with
+        match parseRevU32 a, parseRevU32 b with
         | some x, some y => cmpName (Rev.cmp x y) ++ S " " ++ (if x = y then S "1" else S "0")
         | _, _ => S "err"
       | _ => S "badreq"
@@ -280,7 +285,7 @@ def answer (req : JVal) : Str :=
         | .ok d =>
           let r := Rev.mk1 d
           let s := r.render
-          s ++ S " -> " ++ (match Rev.parse s with | some r2 => revFields r2 | none => S "err")
+          s ++ S " -> " ++ (match parseRevU32 s with | some r2 => revFields r2 | none => S "err")
         | .error e => S "err " ++ msgPrefix e
       | _ => S "badreq"
     else if op = S "kv" then
